@@ -25,6 +25,28 @@ CLAIMS = {
         note="Bounded (see evidence.coverage.bounds). L2 replaces primitivizer.site/fullTrigger by a contract stub under symx; the native replay runs the real ones on sampled paths and on every counterexample. "
              "Found and fixed (fix: commit in /repo): controlled triggers with a pre-determined controller were never activated.",
     ),
+    "C11": dict(
+        text="For <=N conflicts with symbolic report lines/offsets and <=R nolint ranges with symbolic bounds, both grouping values and both exclude-test-files values, the solver shows that a "
+             "conflict is reported (as a diagnostic or in exactly one 'other place(s)' list of a diagnostic with the same nil source) iff its (file, line) lies in no nolint range.",
+        note="Partial: comment attachment (ast.NewCommentMap) and the comment-text recogniser are outside; toPos is stubbed under symx and real in the native replay. "
+             "Found and fixed (fix: commit in /repo): suppression was applied after grouping, so a suppressed group leader hid its unsuppressed members.",
+    ),
+    "C13": dict(
+        text="For <=N conflicts with symbolic offsets (every sort order) the solver-explored paths show that grouping partitions the ungrouped report: every location is a leader or appears in exactly one "
+             "'other place(s)' list of a leader with the same nil source, the printed count equals the list length, and nothing new appears.",
+        note="Partial: only the grouping sentence. The pretty-printing sentence is outside solver reach (regexp with capture groups); see DESIGN.md. ",
+    ),
+    "C06": dict(
+        text="Within the bounds the solver shows: an importer fed the exported fact (through the codec) reaches the same conflict/no-conflict answer and the same verdicts on visible sites as the "
+             "whole-program reference over both packages' constraints; the increment repeats no verdict a dependency published; decoding yields the same content; and (export step alone, deeper bound) "
+             "every verdict on an exported site and every flow between two exported undetermined sites - through any number of unexported sites - is in the fact, and the fact invents nothing.",
+        note="Engine level only; the gob+s2 byte codec is modelled structurally under symx and executed for real in the native replay of sampled paths and counterexamples. Sites and exported flags symbolic, kinds concrete.",
+    ),
+    "C03": dict(
+        text="Within the bounds the solver shows that analysing a chain A<-B<-C and a diamond A<-{B,C}<-D package by package (one engine per package, facts through the codec, dependency facts handed "
+             "over in every order) reports a conflict iff the whole-program reference over the union of all constraints does, and the last package's verdicts on visible sites equal whole-program reachability.",
+        note="Engine level only: real drivers, serialisation bytes, contract/affiliation/nolint facts and position re-keying are outside (see evidence.coverage.outside_bounds).",
+    ),
 }
 
 # reasons for every property not (yet) claimed
@@ -33,5 +55,5 @@ NOT_APPLICABLE = {
     "C16": "The quantifier is goroutine interleavings over the whole analysis heap; symx has no thread model and no installed solver-based engine explores Go schedules.",
     "C18": "Everything the property depends on is environment (process cwd captured at init, filepath.Rel, driver cwd); after stubbing those by contract the residual repo code is a one-line wrapper.",
 }
-for _p in ["C02", "C03", "C04", "C06", "C07", "C08", "C09", "C10", "C11", "C13", "C14", "C15", "C17", "C20"]:
+for _p in ["C02", "C04", "C07", "C08", "C09", "C10", "C14", "C15", "C17", "C20"]:
     NOT_APPLICABLE.setdefault(_p, "kernel check not yet registered (in progress; see DESIGN.md section 4)")
